@@ -51,6 +51,10 @@ pub struct Case {
     /// run the whole server side in a forked child of this (long-lived) worker process
     #[serde(default)]
     pub server_in_forked_child: bool,
+    /// one thread drives all clients: it connects to every server first and only then sends the
+    /// messages round-robin, while every server's accept is already waiting
+    #[serde(default)]
+    pub single_driver: bool,
 }
 
 /// `reader` = somebody is receiving concurrently, so the message may exceed the kernel buffers
@@ -197,8 +201,8 @@ impl Prop for C08 {
                 Client { kind, msgs, order, unused, connects, silent }
             },
         );
-        (prop_oneof![4 => proptest::collection::vec(client.clone(), 1..=6), 1 => proptest::collection::vec(client, 1..=max_servers)], proptest::bool::weighted(0.2))
-            .prop_map(|(clients, server_in_forked_child)| Case { clients, server_in_forked_child })
+        (prop_oneof![4 => proptest::collection::vec(client.clone(), 1..=6), 1 => proptest::collection::vec(client, 1..=max_servers)], proptest::bool::weighted(0.2), proptest::bool::weighted(0.12))
+            .prop_map(|(clients, server_in_forked_child, single_driver)| Case { clients, server_in_forked_child, single_driver })
             .boxed()
     }
 
@@ -218,8 +222,75 @@ impl Prop for C08 {
                 (e, _) => Err(Failure::new("oneshot:forked-server-died", format!("the forked process running the server side ended {:?}: {:?}", e, crate::take_panics()))),
             };
         }
+        if case.single_driver {
+            return run_single_driver(case);
+        }
         run(ctx, case)
     }
+}
+
+/// One thread is the client of every server: connect to all of them (in order), then send the
+/// messages round-robin (last server first), then drop the senders.  Every server's `accept` is
+/// already waiting in a thread of its own.  Small messages only - nothing here can block on buffers.
+fn run_single_driver(case: &Case) -> Result<Outcome, Failure> {
+    let os = !cfg!(feature = "inproc");
+    let snap0 = fdsnap::snapshot();
+    let n = case.clients.len().clamp(2, 8);
+    let counts: Vec<usize> = (0..n).map(|i| case.clients.get(i).map(|c| c.msgs.len()).unwrap_or(1).clamp(1, 5)).collect();
+    let mut names = vec![];
+    let mut acceptors = vec![];
+    for _ in 0..n {
+        let (server, name) = IpcOneShotServer::<Node>::new().map_err(|e| Failure::inconclusive(format!("server: {}", e)))?;
+        names.push(name);
+        acceptors.push(std::thread::spawn(move || server.accept().map_err(|e| e.to_string())));
+    }
+    sandbox::spin(20_000);
+    let counts2 = counts.clone();
+    let driver = std::thread::spawn(move || -> Result<(), String> {
+        let mut txs = vec![];
+        for name in names {
+            txs.push(IpcSender::<Node>::connect(name).map_err(|e| format!("connect: {}", e))?);
+        }
+        let most = counts2.iter().copied().max().unwrap_or(0);
+        for seq in 0..most {
+            for i in (0..txs.len()).rev() {
+                if seq < counts2[i] {
+                    txs[i].send(client_message_sized(i as u32, seq as u32, 64, false)).map_err(|e| format!("send {} to server {}: {}", seq, i, e))?;
+                }
+            }
+        }
+        Ok(())
+    });
+    match sandbox::watched(move || driver.join()) {
+        Ok(Ok(Ok(()))) => {},
+        Ok(Ok(Err(e))) => fail!("oneshot:client-failed", "one thread driving {} servers: {}", n, e),
+        Ok(Err(_)) => fail!("oneshot:client-panicked", "one thread driving {} servers: {:?}", n, crate::take_panics()),
+        Err(h) => return Err(sandbox::hang_failure("oneshot:bootstrap-deadlock", &format!("one thread connects to {} waiting servers and then sends their first messages: it never gets through", n), h)),
+    }
+    for (i, a) in acceptors.into_iter().enumerate() {
+        let what = format!("server {} of {} (single driver)", i, n);
+        let (rx, first) = match sandbox::watched(move || a.join()) {
+            Ok(Ok(Ok(x))) => x,
+            Ok(Ok(Err(e))) => fail!("oneshot:accept-failed", "{}: {}", what, e),
+            Ok(Err(_)) => fail!("oneshot:accept-panicked", "{}: {:?}", what, crate::take_panics()),
+            Err(h) => return Err(sandbox::hang_failure("oneshot:accept-hangs", &what, h)),
+        };
+        check_message(first, i as u32, 0, false).map_err(|e| Failure::new("oneshot:first-message-differs", format!("{}: {}", what, e)))?;
+        for seq in 1..counts[i] {
+            match rx.recv() {
+                Ok(v) => check_message(v, i as u32, seq as u32, false).map_err(|e| Failure::new("oneshot:later-message-differs", format!("{}: {}", what, e)))?,
+                Err(e) => fail!("oneshot:later-message-lost", "{}: message {} of {} did not arrive: {:?}", what, seq, counts[i], e),
+            }
+        }
+        let end = rx.recv();
+        ensure!(matches!(end, Err(IpcError::Disconnected)), "oneshot:no-disconnect", "{}: after all messages the receiver yielded {:?}", what, end.map(|v| node::rendered(&v)));
+    }
+    if os {
+        let end = fdsnap::snapshot();
+        let d = fdsnap::diff(&snap0, &end);
+        ensure!(end.fds.len() == snap0.fds.len() && end.tmp == snap0.tmp, "oneshot:descriptors-left-behind", "after everything was dropped: {}", d);
+    }
+    Ok(Outcome::new(true, format!("single-driver/{}servers", n)).with("servers", n as u64))
 }
 
 #[allow(dead_code)]
